@@ -18,7 +18,7 @@ package dns
 //@   fresh
 //@ iface RR.len [C16]
 //@   opt no-safety
-//@   pure
+//@   modifies MS.mapLstringJstruct__@compression
 //@ iface RR.String [C16]
 //@   opt no-safety
 //@   pure
